@@ -40,7 +40,7 @@ struct H
   struct Op { int kind, x, y; };
   std::vector<Op> ops; bool opsValid;
   enum { ASSIGNNEW, ASSIGNNEWDERIVED, ASSIGN, ASSIGNNULL, ASSIGNRAW, COPYCTOR, CONVCOPY, CONVASSIGN, SWAP, RECREATE, DROPDERIVED, ROT,
-         LINK, UNLINK, ADVANCE, ADVANCERAW, ADVANCECOPY };
+         LINK, UNLINK, ADVANCE, ADVANCERAW, ADVANCECOPY, RAWCTOR };
   int nextOf(int id) { std::map<int, int>::iterator i = nx.find(id); return i == nx.end() ? 0 : i->second; }
   bool reaches(int from, int to) { for(int g = 0; from && g < 100; ++g, from = nextOf(from)) if(from == to) return true; return false; }
   std::set<int> wanted()
@@ -74,6 +74,7 @@ struct H
     add(ASSIGNNULL);
     for(int j = 0; j < 3; ++j) if(m[j]) add(ASSIGNRAW, j);
     for(int j = 1; j < 3; ++j) add(COPYCTOR, j);
+    for(int j = 0; j < 3; ++j) if(m[j]) add(RAWCTOR, j);     // a handle constructed from the raw pointer of an object that already has handles
     add(CONVCOPY); add(CONVASSIGN);
     for(int j = 0; j < 3; ++j) { add(SWAP, j); if(j) add(SWAP, j, 1); }   // either handle as the receiver
     add(RECREATE); add(DROPDERIVED);
@@ -84,7 +85,7 @@ struct H
   static const char* kindName(int k)
   {
     static const char* n[] = {"h0=new Obj", "hd=new Derived;h0=hd", "h0=h", "h0=null", "h0=rawPointerOf h", "h0=Ptr(h)", "h0=Ptr<Obj>(hd)", "h0=hd", "h0.swap(h)", "destroy+recreate h0", "hd=null", "rotate",
-      "h0->next=h", "h0->next=null", "h0=h0->next", "h0=rawPointerOf h0->next", "h0=Ptr(h0->next)"};
+      "h0->next=h", "h0->next=null", "h0=h0->next", "h0=rawPointerOf h0->next", "h0=Ptr(h0->next)", "h0=Ptr(rawPointerOf h)"};
     return n[k];
   }
   std::string opname(int i) { if(!opsValid) buildOps(); return vf::fmt("%s%d {h0->%d h1->%d h2->%d hd->%d}", (std::string(kindName(ops[i].kind)) + (ops[i].y ? "(reversed receiver)" : "")).c_str(), ops[i].x, m[0], m[1], m[2], md); }
@@ -113,6 +114,7 @@ struct H
     case UNLINK: LIB(a->next = (Obj*)0); nx.erase(m[0]); break;
     case ADVANCE: { int t = nextOf(m[0]); LIB(a = a->next); m[0] = t; break; }                       // the argument lives inside the object that may be released
     case ADVANCERAW: { int t = nextOf(m[0]); Obj* raw = a->next.operator->(); LIB(a = raw); m[0] = t; break; }
+    case RAWCTOR: { Obj* raw = h[o.x]->operator->(); int t = m[o.x]; P* n = 0; LIB(n = new P(raw)); LIB(delete h[0]); h[0] = n; m[0] = t; break; }
     case ADVANCECOPY: { int t = nextOf(m[0]); P* n = 0; LIB(n = new P(a->next)); LIB(delete h[0]); h[0] = n; m[0] = t; break; }
     }
     prune();
